@@ -76,8 +76,10 @@ Fixpoint norm_strings (cur : option sval) (ts : list tok) {struct ts} : option (
          end
   end.
 
-Definition is_closer (s : str) : bool := str_eqb s [93] || str_eqb s [41] || str_eqb s [125].
-Definition is_comma (s : str) : bool := str_eqb s [44].
+Definition closers : list str := [[93]; [41]; [125]].
+Definition comma : str := [44].
+Definition is_closer (s : str) : bool := existsb (str_eqb s) closers.
+Definition is_comma (s : str) : bool := str_eqb s comma.
 
 Fixpoint skip_tc (ts : list tok) : list tok :=
   match ts with
